@@ -194,4 +194,30 @@ def mutants(p, rnd, per_op=4):
                 if s["s"] not in main_decl and s["s"] not in {g["n"] for g in p["globals"]} and s["s"] not in user_fns:
                     q = copy.deepcopy(p); q["funcs"][main_i[0]]["body"].insert(0, Let("zzq_other", s["t"], V(s["s"])))
                     emit(q, "scope", "local %s of %s used in main" % (s["s"], fn["n"]))
+    # the same expression-level mutations inside shadow blocks: they are part of the program and subject to the same rules
+    for k, sh in enumerate(p.get("shadows", [])):
+        sites = []
+        for si, st in enumerate(sh["b"]):
+            for path, e in _paths_exprs(st, ("shadows", k, "b", si)):
+                sites.append((path, e))
+        cand = [(path, e) for path, e in sites if e["k"] == "call" and e["a"] and e["s"] not in ("println", "print")]
+        for path, e in (rnd.sample(cand, 2) if len(cand) > 2 else cand):
+            q = copy.deepcopy(p); n = _get(q, path)
+            j = rnd.randrange(len(n["a"])); a = n["a"][j]
+            n["a"][j] = I(7) if a["k"] in ("str", "slit", "ulit", "alit", "tlit", "bool") else S("zq")
+            emit(q, "argtype", "argument %d of %s replaced by a value of another type in shadow block of %s" % (j, n["s"], sh["fn"]))
+            q = copy.deepcopy(p); n = _get(q, path); n["a"].append(copy.deepcopy(n["a"][-1]))
+            emit(q, "arity", "extra argument for %s in shadow block of %s" % (n["s"], sh["fn"]))
+        vars_ = [(path, e) for path, e in sites if e["k"] == "var"]
+        for path, e in (rnd.sample(vars_, 1) if len(vars_) > 1 else vars_):
+            q = copy.deepcopy(p); _get(q, path)["s"] = "nosuch_qz"
+            emit(q, "scope", "variable renamed to an unknown name in shadow block of %s" % sh["fn"])
+        asserts = [si for si, st in enumerate(sh["b"]) if st["k"] == "assert"]
+        for si in asserts[:1]:
+            q = copy.deepcopy(p); q["shadows"][k]["b"][si]["a"][0] = I(1)
+            emit(q, "cond", "condition of assert replaced by an int in shadow block of %s" % sh["fn"])
+        lets = [si for si, st in enumerate(sh["b"]) if st["k"] == "let" and st["t"] in ("int", "bool", "string")]
+        for si in lets[:1]:
+            q = copy.deepcopy(p); st = q["shadows"][k]["b"][si]; st["a"][0] = I(7) if st["t"] != "int" else S("zq")
+            emit(q, "lettype", "initialiser of let %s: %s replaced by a value of another type in shadow block of %s" % (st["s"], st["t"], sh["fn"]))
     return out
